@@ -121,13 +121,13 @@ package referenceserver
 //@   assert_at "return timeout, true"#2: unit == 'u' ==> timeout == satNanos(intVal * 1000)
 //@   assert_at "return timeout, true"#2: unit == 'n' ==> timeout == satNanos(intVal * 1)
 //@   //# cut points: the parsed number, and for each unit that the round trip detects exactly the products that do not fit
-//@   assert_at "if roundTripped != intVal {": intVal >= 0 && intVal == decVal(timeoutStr, len(timeoutStr))
-//@   assert_at "if roundTripped != intVal {": unit == 'H' ==> (intVal * 3600000000000 <= 9223372036854775807 ? (timeout == intVal * 3600000000000 && roundTripped == intVal) : roundTripped != intVal)
-//@   assert_at "if roundTripped != intVal {": unit == 'M' ==> (intVal * 60000000000 <= 9223372036854775807 ? (timeout == intVal * 60000000000 && roundTripped == intVal) : roundTripped != intVal)
-//@   assert_at "if roundTripped != intVal {": unit == 'S' ==> (intVal * 1000000000 <= 9223372036854775807 ? (timeout == intVal * 1000000000 && roundTripped == intVal) : roundTripped != intVal)
-//@   assert_at "if roundTripped != intVal {": unit == 'm' ==> (intVal * 1000000 <= 9223372036854775807 ? (timeout == intVal * 1000000 && roundTripped == intVal) : roundTripped != intVal)
-//@   assert_at "if roundTripped != intVal {": unit == 'u' ==> (intVal * 1000 <= 9223372036854775807 ? (timeout == intVal * 1000 && roundTripped == intVal) : roundTripped != intVal)
-//@   assert_at "if roundTripped != intVal {": unit == 'n' ==> (intVal * 1 <= 9223372036854775807 ? (timeout == intVal * 1 && roundTripped == intVal) : roundTripped != intVal)
+//@   assert_at "if roundTripped ": intVal >= 0 && intVal == decVal(timeoutStr, len(timeoutStr))
+//@   assert_at "if roundTripped ": unit == 'H' ==> (intVal * 3600000000000 <= 9223372036854775807 ? (timeout == intVal * 3600000000000 && roundTripped == intVal) : roundTripped != intVal)
+//@   assert_at "if roundTripped ": unit == 'M' ==> (intVal * 60000000000 <= 9223372036854775807 ? (timeout == intVal * 60000000000 && roundTripped == intVal) : roundTripped != intVal)
+//@   assert_at "if roundTripped ": unit == 'S' ==> (intVal * 1000000000 <= 9223372036854775807 ? (timeout == intVal * 1000000000 && roundTripped == intVal) : roundTripped != intVal)
+//@   assert_at "if roundTripped ": unit == 'm' ==> (intVal * 1000000 <= 9223372036854775807 ? (timeout == intVal * 1000000 && roundTripped == intVal) : roundTripped != intVal)
+//@   assert_at "if roundTripped ": unit == 'u' ==> (intVal * 1000 <= 9223372036854775807 ? (timeout == intVal * 1000 && roundTripped == intVal) : roundTripped != intVal)
+//@   assert_at "if roundTripped ": unit == 'n' ==> (intVal * 1 <= 9223372036854775807 ? (timeout == intVal * 1 && roundTripped == intVal) : roundTripped != intVal)
 
 //@ func isASCIIDigits
 //@   pure
